@@ -494,7 +494,10 @@ impl std::fmt::Debug for FileId {
 
 /// The next file ID to use. This is global so file IDs do not conflict between different compiler
 /// instances.
+#[cfg(not(apollographql_apollo_rs_verif))]
 static NEXT: AtomicU64 = AtomicU64::new(INITIAL);
+#[cfg(apollographql_apollo_rs_verif)]
+static NEXT: verif_hooks::Counter = verif_hooks::Counter::new(INITIAL);
 static INITIAL: u64 = 3;
 
 const TAG: u64 = 1 << 63;
@@ -599,6 +602,81 @@ pub mod verif_hooks {
 
     pub fn file_id_value(id: super::FileId) -> u64 {
         id.id.get()
+    }
+
+    /// The type of the file id counter under this cfg: an `AtomicU64` whose every operation is
+    /// preceded by the schedule point, so that code under test cannot touch the counter
+    /// without giving the external scheduler a chance to preempt it first.
+    pub struct Counter(super::AtomicU64);
+
+    impl Counter {
+        pub const fn new(value: u64) -> Self {
+            Self(super::AtomicU64::new(value))
+        }
+
+        pub fn load(&self, order: Ordering) -> u64 {
+            schedule_point();
+            self.0.load(order)
+        }
+
+        pub fn store(&self, value: u64, order: Ordering) {
+            schedule_point();
+            self.0.store(value, order)
+        }
+
+        pub fn swap(&self, value: u64, order: Ordering) -> u64 {
+            schedule_point();
+            self.0.swap(value, order)
+        }
+
+        pub fn fetch_add(&self, value: u64, order: Ordering) -> u64 {
+            schedule_point();
+            self.0.fetch_add(value, order)
+        }
+
+        pub fn fetch_sub(&self, value: u64, order: Ordering) -> u64 {
+            schedule_point();
+            self.0.fetch_sub(value, order)
+        }
+
+        pub fn compare_exchange(
+            &self,
+            current: u64,
+            new: u64,
+            success: Ordering,
+            failure: Ordering,
+        ) -> Result<u64, u64> {
+            schedule_point();
+            self.0.compare_exchange(current, new, success, failure)
+        }
+
+        pub fn compare_exchange_weak(
+            &self,
+            current: u64,
+            new: u64,
+            success: Ordering,
+            failure: Ordering,
+        ) -> Result<u64, u64> {
+            schedule_point();
+            self.0.compare_exchange_weak(current, new, success, failure)
+        }
+
+        pub fn fetch_update<F: FnMut(u64) -> Option<u64>>(
+            &self,
+            set_order: Ordering,
+            fetch_order: Ordering,
+            mut f: F,
+        ) -> Result<u64, u64> {
+            // a CAS loop: a schedule point in front of the load and of every exchange
+            let mut prev = self.load(fetch_order);
+            while let Some(next) = f(prev) {
+                match self.compare_exchange_weak(prev, next, set_order, fetch_order) {
+                    Ok(x) => return Ok(x),
+                    Err(actual) => prev = actual,
+                }
+            }
+            Err(prev)
+        }
     }
 }
 
